@@ -39,6 +39,9 @@ def main():
         schema.str.alphabet("zyxzyx").contains("zz").len(6, 9), schema.str.alphabet("éèêé☃").len(5), schema.str.alphabet("ba"),
         schema.list(schema.str.alphabet("1223334444")).len(3), schema.dict({"k": schema.str.alphabet("mississippi").len(4)}),
         schema.bytes, schema.list([schema.int, schema.str.alphabet("aab"), ...]),
+        # floats on a precision grid with the (long) default bounds and with long declared ones
+        schema.float.precision(3), schema.float.precision(1), schema.float.min(-123456789.123456789).precision(6),
+        schema.list(schema.float.precision(2)).len(3), schema.float.max(9.87654321987654321e17).precision(4),
     ]
     # LONG / DEEP: anything counted per call and never reset (depth counters, totals) shifts what later open-ended
     # schemas draw: many fixed-element lists and a deeply nested one, with open-ended lists / dicts before and after
@@ -62,6 +65,15 @@ def main():
     if nan_seed:
         # the recorded finding K19: a NaN seed is hashed by object identity
         schemas, seeds = [schema.int, schema.str.len(8), schema.list(schema.int).len(3)], (float("nan"),)
+    if sys.argv[4] in ("5", "6"):
+        # the values are a function of the seed and of the schemas FAKED — not of what else the process declared: mode 5 declares
+        # a zoo of bystander schemas (never faked) first, mode 6 declares nothing else
+        if sys.argv[4] == "5":
+            bystanders()
+        schemas = [schema.float.precision(3), schema.float.precision(1), schema.list(schema.float.precision(2)).len(3), schema.float,
+                   schema.int, schema.str.len(6), schema.str.regex(r"[a-f]{4}\d*"), schema.list(schema.int).len(2, 5),
+                   schema.dict({"a": schema.float.precision(5), "b": schema.str.alphabet("xyz").len(3)}), schema.bytes]
+        seeds = (0, 17, "seed", 3.5)
     if eq_seeds:
         # what a seed gives must not depend on which OTHER seeds the process used before: the same seeds in the opposite
         # order in another interpreter (mode 4) must give the same values per seed
@@ -118,6 +130,22 @@ def between():
         _r.setstate(st)
 
 
+def bystanders():
+    """declarations of every kind, compared, printed, validated against and substituted into — but never faked"""
+    from d42 import optional, schema, substitute, validate
+    zoo = [schema.float.min(0.5).max(2.5).precision(1), schema.float.min(-1.0).max(1.0).precision(3), schema.float(1.25).precision(2),
+           schema.float.min(0.1).max(0.3), schema.int.min(1).max(9), schema.int(5), schema.str.len(1, 3).alphabet("ab").contains("a"),
+           schema.str.regex(r"\w{40,}x*"), schema.str("abc"), schema.list(schema.int).len(2, 400), schema.list([schema.int, ...]),
+           schema.dict({"k": schema.int, optional("o"): schema.str, ...: ...}), schema.any(schema.int, schema.none), schema.bytes(b"x"),
+           schema.alias("n", schema.int.min(0))]
+    for z in zoo:
+        repr(z), z == z, validate(z, None), hash(repr(z))
+        try:
+            substitute(z, 1)
+        except Exception:  # noqa: BLE001
+            pass
+
+
 def construct_only():
     """constructing the public classes (a second Random, generators, visitors, schemas) is not a draw"""
     from d42 import schema
@@ -129,6 +157,8 @@ def construct_only():
     Generator(r, RegexGenerator(Random()))
     RegexGenerator(Random(), alphabet={"digits": "01"}, max_repeat=7)
     Validator(), Substitutor(), Representor()
+    schema.float.min(0.5).max(2.5).precision(1), schema.float.min(-1.0).max(1.0).precision(3), schema.float(1.25).precision(2)
+    schema.int.min(1).max(9), schema.str.len(1, 3).alphabet("ab"), schema.list(schema.int).len(2, 4)
     schema.str.regex(r"[a-c]{2}").len  # noqa: B018
     schema.list(schema.int).len(1, 3) | schema.dict({"a": schema.float.min(0.0)})
 
